@@ -279,7 +279,17 @@ def _run_static(an, A, w):
     for k in ('line_search', 'max_iter_line_search', 'modified_NR', 'compute_every_n', 'kT_initial_state',
               'initialInc', 'minInc', 'maxInc', 'absTOL', 'relTOL', 'maxNumIter', 'too_slow_TOL', 'NL_method'):
         setattr(R, k, getattr(A, k))
-    return R.static(NLgeom=True, silent=True)
+    if getattr(w, 'cfg', {}).get('after_an_earlier_analysis'):
+        # the same Analysis object already carries the results of an earlier analysis (what a first static() leaves behind)
+        for name in ('increments', 'cs'):
+            old = RecList(w, name)
+            list.append(old, 1.0 if name == 'increments' else Vec('state-of-the-earlier-analysis'))
+            store[name] = old
+    incs, cs = R.static(NLgeom=True, silent=True)
+    if len(incs) != len(w.reported) or len(cs) != len(w.reported):
+        raise PathViolation('the lists reported by this analysis contain %d load factors / %d states for %d reports: entries of an earlier analysis on the same object' % (
+            len(incs), len(cs), len(w.reported)), {'lambda': None})
+    return incs, cs
 
 
 def final_state_check(res, cfg):
@@ -309,6 +319,7 @@ def config_grid(tier):
     g.append(dict(BASE, initialInc=0.5, maxNumIter=4, too_slow_TOL=0.5, kT_initial_state=False))
     g.append(dict(BASE, initialInc=0.6, maxNumIter=2, minInc=0.02))
     g.append(dict(BASE, initialInc=0.45, maxNumIter=2, minInc=0.1, modified_NR=True, compute_every_n=2))
+    g.append(dict(BASE, initialInc=0.5, maxNumIter=2, minInc=0.1, after_an_earlier_analysis=True))
     if tier == 'thorough':
         for ii, mi, mx in ((0.25, 0.01, 0.5), (0.7, 0.1, 1.0), (1.0, 0.2, 1.0), (0.35, 0.03, 0.4), (0.9, 0.005, 1.0)):
             g.append(dict(BASE, initialInc=ii, minInc=mi, maxInc=mx))
